@@ -92,7 +92,8 @@ def case(exe, h5, cfg, T1, T2, renorm, use_step=None, nrec_leg1=None):
                     pops = prog.fvals(Dx["dsets"]["/BunchPopulation/data"])
                     deficit = max([deficit] + [abs(1.0 - x) for x in pops])
                 info["deficit"] = deficit
-                if rel > 1.5 * deficit + 2e-5:
+                # RenormalizeCharge = 0: nothing is renormalised after a start from a file (see the finding): rounding level only
+                if rel > (2e-6 if renorm == 0 else 1.5 * deficit + 2e-5):
                     return ("final phase space of the continued run differs from the uninterrupted run by %.3g; the "
                             "renormalisation (largest charge deficit %.3g in any record) does not explain it"
                             % (rel, deficit)), info
